@@ -132,6 +132,8 @@ pub struct Case {
     pub bs: bool,
     pub full: bool,
     pub model: bool,
+    /// the first `quiet` bytes are fed without one event each (long payloads that only set up state); a panic is still recorded
+    pub quiet: usize,
     pub bytes: Vec<u8>,
     pub toks: Vec<usize>, // optional token boundaries (indices into bytes where a token ends), informational
 }
@@ -148,6 +150,7 @@ impl Case {
             bs: v["bs"].as_u64().unwrap_or(0) != 0,
             full: v["proj"].as_str().unwrap_or("geo") == "full",
             model: v["model"].as_u64().unwrap_or(1) != 0,
+            quiet: v["quiet"].as_u64().unwrap_or(0) as usize,
             bytes: v["bytes"].as_array().map(|a| a.iter().map(|x| x.as_u64().unwrap_or(0) as u8).collect()).unwrap_or_default(),
             toks: vec![],
         }
@@ -185,6 +188,9 @@ pub fn run_case(c: &Case, evs: &mut Vec<Value>, step_clock: Option<&AtomicU64>) 
             Ok(Err(e)) => ("err", "None", None, None, Some(e.to_string())),
             Err(p) => ("panic", "None", None, Some(panic_site(p)), Some(p.msg.clone())),
         };
+        if i < c.quiet && r != "panic" && us <= 200_000 {
+            continue;
+        }
         let cur = snap(&buf, c.full);
         let mut ev = state_event(&buf, &caret, &prev, &cur, c.full, false);
         ev["ev"] = json!("ch");
@@ -434,7 +440,7 @@ pub fn gen_case(seed: u64, k: u64, emu: &str, big: bool, full: bool) -> Case {
         if r.gen_bool(0.5) { let i = r.gen_range(0..bytes.len()); bytes[i] = r.gen(); }
     }
     let small = w <= 16 && h <= 8;
-    Case { id: format!("g{seed}-{k}"), emu: emu.to_string(), music, w, h, alloc: r.gen_bool(0.5), bs: r.gen_bool(0.3), full: full && small, model: true, bytes, toks }
+    Case { id: format!("g{seed}-{k}"), emu: emu.to_string(), music, w, h, alloc: r.gen_bool(0.5), bs: r.gen_bool(0.3), full: full && small, quiet: 0, model: true, bytes, toks }
 }
 
 // ------------------------------------------------------------------------------------------------ entry point
